@@ -34,8 +34,10 @@ structure InvCore (s : State) : Prop where
   fdsLen : s.fds.length = s.fname.length
   /-- every link (and so every column) belongs to a frame that is registered -/
   linkFrame : ∀ k o, (k, o) ∈ s.links → k.1 ∈ s.file.map (·.2)
-  /-- an open field object whose object is still linked is the one `_columns` holds under that name -/
-  handleLink : ∀ (h : Nat) (hd : Handle), s.handles[h]? = some hd → hd.closed = false → ∀ k, (k, hd.oid) ∈ s.links → (k, h) ∈ s.cols
+  /-- an open field object (the one `_columns` holds, or a writeable view of it) whose group is still linked is valid and
+      remembers the frame the group is linked in -/
+  handleLink : ∀ (h : Nat) (hd : Handle), s.handles[h]? = some hd → hd.closed = false → ∀ k, (k, hd.oid) ∈ s.links →
+                 hd.valid = true ∧ hd.owner = some k.1 ∧ hd.home = k.1
   handleOidLt : ∀ (h : Nat) (hd : Handle), s.handles[h]? = some hd → hd.oid < s.objs.length
 
 structure Inv (s : State) : Prop extends InvCore s where
@@ -113,7 +115,8 @@ def Linked (s : State) (h : Nat) : Prop := ∀ hd, ensureValid s h = .ok hd → 
 
 /-- calls on the columns of a dataframe -/
 def Op.fieldLevel : Op → Bool
-  | .create .. | .setItem .. | .add .. | .delItem .. | .drop .. | .deleteField .. | .rename .. | .copyField .. | .moveField .. => true
+  | .create .. | .setItem .. | .add .. | .delItem .. | .drop .. | .deleteField .. | .rename .. | .copyField .. | .moveField ..
+  | .view .. => true
   | _ => false
 
 /-- the field object given to `dataframe.move`, if any, is not the left-over of a deleted column -/
@@ -182,6 +185,7 @@ def specStep (src : Option Src) (A : Cat) : Op → Cat
   | .deleteFrame d _ sfn => A.setFrame d sfn none
   | .moveFrame sd sfn d fn => (A.setFrame d fn (A sd sfn)).setFrame sd sfn none
   | .reopen _ => A
+  | .view _ => A            -- a second wrapper object is not a change of the catalogue
 
 /-- one entry of the client's call log: the call, where the field it was handed was at that moment, whether it returned -/
 structure Call where
@@ -257,5 +261,6 @@ def Op.touches (src : Option Src) : Op → Src → Prop
   | .deleteFrame d _ sfn, p => (p.d, p.frame) = (d, sfn)
   | .moveFrame sd sfn d fn, p => (p.d, p.frame) = (d, fn) ∨ (p.d, p.frame) = (sd, sfn)
   | .reopen _, _ => False
+  | .view _, _ => False
 
 end Exetera.Catalogue
